@@ -266,11 +266,17 @@ def r1_detector_key_parity(ctx):
             ok = ta == tf
         ctx.check(ok, cq + "#charge-restored", "charge array and cluster table are assigned as saved" if ok else ("the saved clusters are ADDED through " + call_name(adds[0]) + ": the already restored array is converted and added again (charge doubled)" if adds else "charge array and cluster table are not both assigned under the same condition"), where=fd, node=(adds or sf_ or sa_ or [fd.node])[0])
     disp = ctx.func("pyxel.detectors.detector:Detector.from_dict")
+    # decided per path (sa/paths.py): which class rebuilds the detector when the stored type tag is T
+    from sa.paths import enumerate_paths
+
     arms = {}
-    for c in ast.walk(disp.node):
-        if isinstance(c, ast.If) and isinstance(c.test, ast.Compare) and norm(c.test.left) == "dct['type']" and isinstance(c.test.comparators[0], ast.Constant):
-            rets = [r for r in c.body if isinstance(r, ast.Return)]
-            arms[c.test.comparators[0].value] = norm(rets[0].value) if rets else None
+    for q_ in enumerate_paths(disp.node.body):
+        if q_.exit != "return" or q_.value is None:
+            continue
+        for t_, pol in q_.cond_texts():
+            for tag_ in DETS.values():
+                if pol and t_ in (f"dct['type'] == '{tag_}'", f"'{tag_}' == dct['type']"):
+                    arms[tag_] = norm(q_.value)
     ok = arms == {t: f"{t}.from_dict(dct)" for t in DETS.values()}
     ctx.check(ok, disp.qual, "type tag dispatches to the class of the same name" if ok else f"type dispatch table {arms}", where=disp, node=disp.node)
 
@@ -402,18 +408,29 @@ def r3_backend_parity(ctx):
         ctx.check(ok, r.qual, f"rebuilds with cls.from_dict(<backends.from_{fmt}>)" if ok else "does not rebuild the detector from the file's dictionary", where=r, node=r.node)
     wa = ctx.func("pyxel.backends.asdf:to_asdf")
     ra = ctx.func("pyxel.backends.asdf:from_asdf")
-    wst = [s for s in walk_ordered(wa.node) if isinstance(s, ast.Assign) and norm(s.targets[0]) == "dct['data']['charge']['frame']"]
-    rst = [s for s in walk_ordered(ra.node) if isinstance(s, ast.Assign) and norm(s.targets[0]) == "dct['data']['charge']['frame']"]
+    def _store_path(f_, t):
+        """Text of a subscript store target with a local alias of the container expanded
+        (`charge = dct['data']['charge']; charge['frame'] = ..` stores into dct['data']['charge']['frame'])."""
+        if isinstance(t, ast.Subscript):
+            return f"{norm(expand(f_, t.value, _seen={'dct', 'af'}))}[{norm(t.slice)}]"
+        return norm(t)
+
+    wst = [s for s in walk_ordered(wa.node) if isinstance(s, ast.Assign) and _store_path(wa, s.targets[0]) == "dct['data']['charge']['frame']"]
+    rst = [s for s in walk_ordered(ra.node) if isinstance(s, ast.Assign) and _store_path(ra, s.targets[0]) in ("dct['data']['charge']['frame']", "af['data']['charge']['frame']")]
     ok = len(wst) == 1 and "to_dict" in norm(expand(wa, wst[0].value)) and len(rst) == 1 and "pd.DataFrame(" in norm(expand(ra, rst[0].value))
     ctx.check(ok, wa.qual + "#frame", "cluster table: DataFrame -> dict on write, dict -> DataFrame on read" if ok else "the cluster table is not converted symmetrically by the ASDF backend", where=wa, node=wst[0] if wst else wa.node)
-    keys = {s.targets[0].slice.value for s in walk_ordered(ra.node) if isinstance(s, ast.Assign) and isinstance(s.targets[0], ast.Subscript) and dotted(s.targets[0].value) == "dct" and isinstance(s.targets[0].slice, ast.Constant)}
+    from sa.astutil import dict_display as _dd
+
+    disp_ = _dd(ra, "dct")
+    entries = {k.value: v for k, v in zip(disp_.keys, disp_.values) if k is not None} if disp_ is not None else {}
+    keys = set(entries)
     ok = keys == {"version", "type", "properties", "data"}
     ctx.check(ok, ra.qual + "#keys", "reads version, type, properties, data" if ok else f"from_asdf fills {sorted(keys)}", where=ra, node=ra.node)
-    for s in walk_ordered(ra.node):
-        if isinstance(s, ast.Assign) and isinstance(s.targets[0], ast.Subscript) and dotted(s.targets[0].value) == "dct" and isinstance(s.targets[0].slice, ast.Constant) and s.targets[0].slice.value in ("properties", "data", "type"):
-            k = s.targets[0].slice.value
-            ok = norm(s.value) == f"af['{k}']"
-            ctx.check(ok, ra.qual + f"#{k}", f"{k} <- af['{k}']" if ok else f"'{k}' is read from {norm(s.value)}", where=ra, node=s)
+    for k in ("properties", "data", "type"):
+        if k in entries:
+            v_ = entries[k]
+            ok = norm(v_) == f"af['{k}']"
+            ctx.check(ok, ra.qual + f"#{k}", f"{k} <- af['{k}']" if ok else f"'{k}' is read from {norm(v_)[:60]}", where=ra, node=v_)
     wh = ctx.func("pyxel.backends.hdf5:to_hdf5")
     rh = ctx.func("pyxel.backends.hdf5:from_hdf5")
     stored = {}
